@@ -1,8 +1,50 @@
 """C04 — Stored events read back byte-identical, forever."""
 from ._store import run_store
+from ..common import hx
+from ..storecheck import HistGen, encode_event
+from ..gen import AUTHORS
 
-THEOREMS = ['reachable_inv', 'store_read_back', 'read_back_forever', 'by_id_read_back', 'offsets_distinct', 'new_offset_fresh', 'reopen_reads']
+THEOREMS = ['reachable_inv', 'store_read_back', 'read_back_forever', 'by_id_read_back', 'offsets_distinct', 'new_offset_fresh', 'reopen_reads',
+            'delineate_ignores_what_follows', 'delineate_length_any_total']
+
+
+def far_ends(c, runner):
+    """delineation on read with ANY amount of later data behind the event: get_event_by_offset hands Event::delineate the map
+    from the event's offset to the end of the used region; the event must be cut out the same whether 0 bytes, a few, or
+    k * 4 GiB (+- the event's own length) of later events follow. The slice is a zero-filled allocation of that length that
+    starts with the event's bytes (pages never touched are never committed)."""
+    rng = c.rng
+    Q = c.tier == 'quick'
+    g = HistGen(rng, 'C04')
+    lines, meta = [], []
+    G = 1 << 32
+    for k in range(3 if Q else 12):
+        ev = g.new_event(kind=1, pk=AUTHORS[0], tags=[[b't', b'x' * rng.choice([1, 40])]], content=b'c' * rng.choice([0, 17, 653, 3000]))
+        b = encode_event(ev)
+        n = len(b)
+        totals = [n, n + 1, n + 8, 65536 + n, G - 1, G, G + 1, G + 8, G + n - 1, G + n, G + n + 1, G + 2 * n, 2 * G + 8, 2 * G + n - 1, 3 * G + 16]
+        if Q:
+            totals = [n, n + 8, G - 1, G, G + 8, G + n - 1, G + n, 2 * G + 8]
+        for t in totals:
+            if t < n:
+                continue
+            lines.append('DLN %s %d' % (hx(b), t))
+            meta.append((n, t))
+    w, m = c.run_both(lines)
+    c.evaluations += len(lines)
+    for l, (n, t), a, b in zip(lines, meta, w, m):
+        short = [l[:40] + '... ' + l.split(' ')[-1]]
+        c.count('delineate:%s' % a.split(' ')[0])
+        if a.split(' ')[0] in ('panic', 'ABORT', 'HANG'):
+            c.violation('oracle', 'Event::delineate on a slice of %d bytes did not return: %s' % (t, a[:40]), [l])
+            continue
+        if a != b:
+            c.violation('corr', 'delineate: impl %s model %s (slice of %d bytes, event of %d)' % (a, b, t, n), [l], found=False)
+        if a != 'ok %d' % n:
+            c.violation('oracle', 'an event of %d bytes followed by %d bytes of later data is not read back (Event::delineate: %s)' % (n, t - n, a), [l])
+        else:
+            c.nontriv(('dln', n, t))
 
 
 def run():
-    run_store('C04', THEOREMS, """Focus: event sizes from 0 bytes to several map chunks (the debug build grows the map file every 2048 bytes), reopen in between; oracle: every offset ever returned and every retrievable id reads back the exact bytes that were submitted; offsets as the specification predicts (8-aligned, increasing, never reused). non-trivial = distinct history step whose battery was compared.""", {'reply', 'live', 'bytes'}, relevant={'STO', 'OPN', 'GID', 'OFF', 'HAS'})
+    run_store('C04', THEOREMS, """Focus: event sizes from 0 bytes to several map chunks (the debug build grows the map file every 2048 bytes), reopen in between; oracle: every offset ever returned and every retrievable id reads back the exact bytes that were submitted; offsets as the specification predicts (8-aligned, increasing, never reused). Plus: Event::delineate (the length-prefixed cut on read) on slices that continue for 0 bytes .. several times 4 GiB behind the event. non-trivial = distinct history step whose battery was compared.""", {'reply', 'live', 'bytes'}, relevant={'STO', 'OPN', 'GID', 'OFF', 'HAS'}, extra=far_ends)
